@@ -443,7 +443,11 @@ impl MultiTemplate {
                         } else if text.len() <= 20 {
                             format!("'{text}'")
                         } else {
-                            format!("'{}...' ({} chars)", &text[..15], text.len())
+                            format!(
+                                "'{}...' ({} chars)",
+                                text.chars().take(15).collect::<String>(),
+                                text.len()
+                            )
                         };
                         tracer.section(idx + 1, self.sections.len(), "literal", &preview);
                         result.push_str(text);
